@@ -697,9 +697,36 @@ func prop(driver string, contexts []string) func(rt *rapid.T) {
 	}
 }
 
-func TestPropATPlain(t *testing.T)  { ctx.Check(t, prop("at", []string{"plain"})) }
-func TestPropATGlobal(t *testing.T) { ctx.Check(t, prop("at", []string{"global", "global-then-plain"})) }
-func TestPropXAPlain(t *testing.T)  { ctx.Check(t, prop("xa", []string{"plain"})) }
+func TestPropATPlain(t *testing.T) { ctx.Check(t, prop("at", []string{"plain"})) }
+func TestPropATGlobal(t *testing.T) {
+	ctx.Check(t, prop("at", []string{"global", "global-then-plain"}))
+}
+func TestPropXAPlain(t *testing.T) { ctx.Check(t, prop("xa", []string{"plain"})) }
+
+// XA inside a global transaction is C17's subject; here it only provides the history for the plain part
+// that follows on the same handle (pooled or pinned connections that carried an XA branch before).
+func TestPropXAGlobalThenPlain(t *testing.T) {
+	ctx.Check(t, func(rt *rapid.T) {
+		c := Case{Driver: "xa", Context: "global-then-plain", DSN: 0, Via: rapid.SampledFrom([]string{"db", "conn"}).Draw(rt, "via")}
+		c.Tables = append(c.Tables, gen.DrawTable(rt, 0))
+		// the global part: one XA branch, explicit or autocommit, one statement (no conflicts between branches)
+		st := gen.DrawStmt(rt, c.Tables, gen.StmtOptions{NoKeyAssignment: true, Kinds: []string{"insert", "update", "delete"}})
+		kind := "exec"
+		if rapid.Bool().Draw(rt, "explicit") {
+			c.Ops = append(c.Ops, Op{Kind: "begin"}, Op{Kind: kind, SQL: st.SQL, Args: st.Args, Note: st.Kind}, Op{Kind: rapid.SampledFrom([]string{"commit", "rollback"}).Draw(rt, "end")})
+		} else {
+			c.Ops = append(c.Ops, Op{Kind: kind, SQL: st.SQL, Args: st.Args, Note: st.Kind})
+		}
+		c.Split = len(c.Ops)
+		plain := Case{Context: "plain", DSN: 0, Tables: c.Tables}
+		drawOps(rt, &plain)
+		c.Ops = append(c.Ops, plain.Ops...)
+		fl := runCase(c)
+		sh, _ := shape(c)
+		ctx.Rec.Case("xa-global-then-plain", len(plain.Ops) > 0, sh, c, "driver:xa", "context:global-then-plain", "via:"+c.Via)
+		ctx.Judge(rt, "xa", fl, c)
+	})
+}
 
 func TestPropReplaySaved(t *testing.T) {
 	ctx.ReplayAll(t, func(v *stats.Violation) *pt.Failure {
